@@ -256,10 +256,123 @@ class StmtMixin:
     # ------------------------------------------------------------ control flow
     def s_If(self, s):
         c = self.truthy(self.eval(s.test))
-        if self.p.choose(c):
+        p = self.p
+        cz = z3.simplify(c) if not isinstance(c, bool) else z3.BoolVal(c)
+        if not (z3.is_true(cz) or z3.is_false(cz)) and self.options.get('merge_ifs', False):
+            # path merging: execute both branches speculatively (no forks inside) and join
+            if p.speculating:
+                if self.try_merge_if(s, cz):
+                    return
+                from .core import SpecAbort
+                raise SpecAbort()
+            if p.pos < len(p.decisions):
+                if p.decisions[p.pos] == 'M':
+                    p.pos += 1
+                    if not self.try_merge_if(s, cz):
+                        raise Unsupported('speculative merge not reproducible on replay')
+                    return
+            elif self.try_merge_if(s, cz):
+                p.decisions.append('M')
+                p.pos += 1
+                return
+        if p.choose(c):
             self.exec_block(s.body)
         else:
             self.exec_block(s.orelse)
+
+    def try_merge_if(self, s, c):
+        """Run both branches of `if c:` under guards c / not c without forking and
+        merge the resulting states with ite-terms.  False = not possible (fork)."""
+        from .core import SpecAbort
+        p = self.p
+        fr = self.frame
+        if len(self.frames) > 12 or p.speculating >= 2:
+            return False
+        if p.check(c) == z3.unsat or p.check(z3.Not(c)) == z3.unsat:
+            return False       # one side infeasible: ordinary choose handles it without a fork
+
+        def snap():
+            return (dict(fr.locals), dict(p.heap), p.next, p.nfresh, dict(p.bounds),
+                    dict(p.__dict__.get('_divmod', {})), set(p.__dict__.get('_facts', set())),
+                    dict(p.str_defs),
+                    {k: (b, dict(reg)) for k, (b, reg) in p.__dict__.get('multipliers', {}).items()},
+                    fr.loop_ordinal, dict(fr.call_ordinals), len(self.frames), self.cur_line)
+
+        def restore(st):
+            (fr.locals, p.heap, p.next, p.nfresh, p.bounds, p._divmod, p._facts, p.str_defs,
+             p.multipliers, fr.loop_ordinal, fr.call_ordinals) = (
+                dict(st[0]), dict(st[1]), st[2], st[3], dict(st[4]), dict(st[5]), set(st[6]),
+                dict(st[7]), {k: (b, dict(reg)) for k, (b, reg) in st[8].items()}, st[9], dict(st[10]))
+            del self.frames[st[11]:]
+
+        base = snap()
+        nobl = len(self.obligations)
+        outs = []
+        for guard, block in ((c, s.body), (z3.Not(c), s.orelse)):
+            p.guards.append(guard)
+            p.speculating += 1
+            ok = True
+            try:
+                self.exec_block(block)
+            except (SpecAbort, PyRaise, ReturnEx, BreakEx, ContinueEx, Infeasible, Unsupported):
+                ok = False
+            finally:
+                p.guards.pop()
+                p.speculating -= 1
+            if not ok:
+                restore(base)
+                del self.obligations[nobl:]
+                return False
+            outs.append((dict(fr.locals), dict(p.heap), p.next, p.nfresh, dict(p.bounds),
+                         fr.loop_ordinal, dict(fr.call_ordinals)))
+            loopA = fr.loop_ordinal
+            restore(base)
+        (la, ha, na, fa, ba, loa, coa), (lb, hb, nb, fb, bb, lob, cob) = outs
+        # merge locals
+        merged = {}
+        for name in set(la) | set(lb):
+            va, vb = la.get(name), lb.get(name)
+            if va is vb:
+                merged[name] = va
+                continue
+            if va is None or vb is None:
+                merged[name] = None      # bound on one side only: unbound after the join
+                continue
+            if va.kind == vb.kind and va.t is not None and vb.t is not None:
+                if va.kind == STR and not va.t.eq(vb.t) and not (
+                        z3.is_string_value(z3.simplify(va.t)) and z3.is_string_value(z3.simplify(vb.t))):
+                    # string terms are matched syntactically by pymodel: keep the paths apart
+                    del self.obligations[nobl:]
+                    return False
+                merged[name] = SV(va.kind, va.t if va.t.eq(vb.t) else z3.If(c, va.t, vb.t))
+                continue
+            try:
+                k = self.join_kinds([va.kind, vb.kind])
+                merged[name] = SV(k, z3.If(c, self.coerce(va, k), self.coerce(vb, k)))
+            except Unsupported:
+                del self.obligations[nobl:]
+                return False
+        fr.locals = merged
+        # merge heap
+        heap = {}
+        for key in set(ha) | set(hb):
+            a, b = ha.get(key), hb.get(key)
+            if a is None or b is None:
+                other = a if a is not None else b
+                init = z3.Const('H0_' + key, other.sort())
+                p.bounds.setdefault(str(init), p.next0)
+                a = init if a is None else a
+                b = init if b is None else b
+            heap[key] = a if a.eq(b) else z3.If(c, a, b)
+        p.heap = heap
+        p.next = na if na.eq(nb) else z3.If(c, na, nb)
+        p.nfresh = max(fa, fb)
+        p.bounds = dict(ba)
+        p.bounds.update(bb)
+        fr.loop_ordinal = max(loa, lob)
+        for k_ in set(coa) | set(cob):
+            fr.call_ordinals[k_] = max(coa.get(k_, 0), cob.get(k_, 0))
+        return True
 
     def s_Raise(self, s):
         if s.exc is None:
